@@ -36,7 +36,7 @@ ASSUMPTIONS = [
 TRUSTED_EXTRA = ['Python reference evaluator in harness/c05.py: used only to enumerate oracle queries and to direct the '
                  'generator; verdicts come from Coq (Spec/C05.v sem_m / sem_t)']
 
-IMPORTS = ['Lib.Text', 'Model.Interval', 'Model.TextOps', 'Spec.C05']
+IMPORTS = ['Lib.Text', 'Model.Interval', 'Model.LineNums', 'Model.TextOps', 'Spec.C05']
 
 # ---------------------------------------------------------------------------------------------
 # Regex family (Python syntax) and replacement strings.  (pattern, ignore_case)
@@ -210,6 +210,22 @@ def im_holds(im, x):
     raise ValueError(im)
 
 
+def in_range(r, k, num_lines):
+    """LINE-NUMBER-RANGE: N | N: | :N | N:M; a negative number counts from the end (-1 = the last line)"""
+    a = lambda n: n if n >= 0 else num_lines + n + 1
+    if r[0] == 's':
+        return k == a(r[1])
+    if r[0] == 'l':
+        return a(r[1]) <= k
+    if r[0] == 'u':
+        return k <= a(r[1])
+    return a(r[1]) <= k <= a(r[2])
+
+
+def range_src(r):
+    return {'s': '%d', 'l': '%d:', 'u': ':%d', 'b': '%d:%d'}[r[0]] % tuple(r[1:])
+
+
 class Ref:
     def __init__(self):
         self.re, self.sub, self.case = {}, {}, {}
@@ -299,6 +315,9 @@ class Ref:
             return ''.join(l for n, l in enumerate(lines_lf(t), 1) if self.lm(T[1], n, l.rstrip('\n')))
         if k == 'grep':
             return self.t(('filter', ('contents', ('matches', T[1], T[2]))), t)
+        if k == 'linenums':
+            ls = lines_lf(t)
+            return ''.join(l for n, l in enumerate(ls, 1) if any(in_range(r, n, len(ls)) for r in T[1]))
         if k == 'seq':
             for o in T[1]:
                 t = self.t(o, t)
@@ -538,6 +557,27 @@ class Gen:
                 return k
         return k
 
+    def linenums(self, t):
+        """filter -line-nums RANGE...: 1 range (the ten single-range implementations) or 2-4 ranges (partition / merge /
+        translation of negative numbers), numbers around 0, around +-(number of lines) and beyond the text on both sides"""
+        rng = self.rng
+        n = len(lines_lf(t))
+
+        def num():
+            c = rng.below(10)
+            if c < 3:
+                return rng.randint(-n - 3, -n)      # at / beyond the start, counted from the end
+            if c < 5:
+                return rng.randint(n, n + 3)        # at / beyond the end
+            if c < 6:
+                return rng.randint(-1, 1)
+            return rng.randint(-n - 1, n + 1)
+
+        def rg():
+            k = rng.below(5)
+            return ('s', num()) if k < 2 else ('l', num()) if k == 2 else ('u', num()) if k == 3 else ('b', num(), num())
+        return ('linenums', [rg() for _ in range(1 if rng.chance(0.3) else rng.randint(2, 4))])
+
     def trans(self, t, depth, simple_only=False):
         rng = self.rng
         r = rng.below(100)
@@ -557,6 +597,8 @@ class Gen:
             ks = [k for k, (r_, q_) in enumerate(SUBS) if _COMPILED[r_].fullmatch('') and REPLACEMENTS[q_] not in ('', r'\g<0>')]
             return rng.choice([('replace', None, rng.chance(0.4), rng.choice(ks)), ('filter', ('const', True)),
                                ('filter', ('contents', ('empty',))), ('grep', True, rid_of(''))])
+        if rng.chance(0.09):
+            return self.linenums(t)
         if q < 38:
             sel = self.lmatcher(t, max(depth - 1, 0)) if rng.chance(0.3) else None
             return ('replace', sel, rng.chance(0.4), self.sub_for(t))
@@ -717,6 +759,11 @@ class Render:
             return 'filter ' + self.lm(T[1])
         if k == 'grep':
             return 'grep ' + ('-full ' if T[1] else '') + self.regex(T[2])
+        if k == 'linenums':
+            # the RANGE list extends to the end of the line: anywhere but at the very end of the whole expression it is
+            # closed by a line break inside parentheses
+            r = 'filter -line-nums ' + ' '.join(range_src(x) for x in T[1])
+            return r if top else '( ' + r + '\n)'
         s = ' | '.join(self.t(x) for x in T[1])
         return s if top else '( ' + s + ' )'
 
@@ -838,6 +885,8 @@ class Skel:
             return ['filter LINE-MATCHER', self.lm(T[1])]
         if k == 'grep':
             return ['filter LINE-MATCHER', ['contents TEXT-MATCHER', self.m(('matches', T[1], T[2]))]]
+        if k == 'linenums':
+            return ['filter -line-nums LINE-NUMBER-RANGE...']
         return ['|'] + [self.t(x) for x in T[1]]
 
 
@@ -931,6 +980,9 @@ class CoqTerm:
             return '(TFilter %s)' % self.lm(T[1])
         if k == 'grep':
             return '(TFilter (LContents (SMatches %s %s)))' % (cbool(T[1]), self.rid(T[2]))
+        if k == 'linenums':
+            rc = {'s': 'RSingle', 'l': 'RLower', 'u': 'RUpper', 'b': 'RBoth'}
+            return '(TFilterLineNums %s)' % clist(['(%s %s)' % (rc[r[0]], ' '.join(cZ(x) for x in r[1:])) for r in T[1]])
         return self.nest('TSeq', [self.t(x) for x in T[1]])
 
     def tables(self, ref):
@@ -985,6 +1037,15 @@ class Impl:
         self.sroot.mkdir()
         self.sds = sdsm.construct_at(str(self.sroot))
 
+    def primitive(self, parser, src, env, tcds):
+        """what an instruction does: parse, resolve, validate (this is what parses the RANGEs of -line-nums and
+        compiles the regexes), make the primitive"""
+        ddv = impl.parse_full(parser, src).resolve(impl.SymbolTable())
+        for err in (ddv.validator.validate_pre_sds_if_applicable(tcds.hds), ddv.validator.validate_post_sds_if_applicable(tcds)):
+            if err is not None:
+                raise ValueError('validation error for a generated expression: %r' % src)
+        return ddv.value_of_any_dependency(tcds).primitive(env)
+
     def new_home(self, files):
         self.n += 1
         home = self.tmp / ('h%d' % self.n)
@@ -1006,7 +1067,7 @@ class Impl:
         env = self.envs[mem]
         home = self.new_home(files)
         tcds = self.TestCaseDs(self.HomeDs(home, home), self.sds)
-        tr = impl.primitive_of(impl.parse_full(self.pst, T_src), env, tcds)
+        tr = self.primitive(self.pst, T_src, env, tcds)
         if expr is not None:
             read_back(tr, Skel().t(expr), T_src)
         source = self.base_source(model, home, env)
@@ -1032,9 +1093,9 @@ class Impl:
         tcds = self.TestCaseDs(self.HomeDs(home, home), self.sds)
         try:
             if is_transformer:
-                read_back(impl.primitive_of(impl.parse_full(self.pst, src), env, tcds), Skel().t(expr), src)
+                read_back(self.primitive(self.pst, src, env, tcds), Skel().t(expr), src)
             else:
-                read_back(impl.primitive_of(impl.parse_full(self.psm, src), env, tcds), Skel().m(expr), src)
+                read_back(self.primitive(self.psm, src, env, tcds), Skel().m(expr), src)
         finally:
             shutil.rmtree(home, ignore_errors=True)
 
@@ -1042,7 +1103,7 @@ class Impl:
         env = self.envs[mem]
         home = self.new_home(files)
         tcds = self.TestCaseDs(self.HomeDs(home, home), self.sds)
-        mt = impl.primitive_of(impl.parse_full(self.psm, m_src), env, tcds)
+        mt = self.primitive(self.psm, m_src, env, tcds)
         if expr is not None:
             read_back(mt, Skel().m(expr), m_src)
         source = self.base_source(model, home, env)
@@ -1264,7 +1325,7 @@ def sym(x):
 
 
 _NODE_NAMES = {'empty', 'equals', 'matches', 'numlines', 'line', 'trans', 'const', 'not', 'and', 'or', 'contents', 'linenum',
-               'identity', 'replace', 'strip', 'upper', 'lower', 'filter', 'grep', 'seq', 'str', 'file', 'strans', 'cmp', 'neg',
+               'identity', 'replace', 'strip', 'upper', 'lower', 'filter', 'grep', 'linenums', 's', 'l', 'u', 'b', 'seq', 'str', 'file', 'strans', 'cmp', 'neg',
                'conj', 'disj'}
 
 
@@ -1379,7 +1440,7 @@ def run(ctx, res, sizes=None):
     res.samples = [case_json(c) for c in good[len(corpus):len(corpus) + 2] + good[-2:]]
     evaluate(good, res)
     # information only (never a failure): does the model predict may_depend_on_external_resources before / after freeze()?
-    tcs = [c for c in good if c['kind'] == 'T'][:400 if ctx.quick else 4000]
+    tcs = [c for c in good if c['kind'] == 'T' and 'linenums' not in kinds_of(c['expr'], set())][:400 if ctx.quick else 4000]
     terms = ['(%s, (%s, %s))' % (c['term'], cbool(c['obs']['ext']), cbool(c['obs']['fext'])) for c in tcs]
     fb, _, ferrs = common.run_shards('C05', IMPORTS, 'check_flags', terms, shard_size=250, tag='flags')
     res.extra['source_flags_information_only'] = {
